@@ -210,15 +210,7 @@ class CTR(Mode):
     def dec(self,C):
         self.counter.reset()
         self.pad.reset()
-        P = self.enc(C)
-        n,p = divmod(len(C),self.len)
-        if p>0:
-            assert len(P)==n+1
-            res = P[:-p]
-        else:
-            assert len(P)==n
-            res = P
-        return res
+        return self.enc(C)
 
 # -----------------------------------------------------------------------------
 # Chain mode of Operation Core class for Digest algorithms, nopadding default
